@@ -11,7 +11,11 @@ mod c05;
 mod c18;
 
 fn main() {
-    std::panic::set_hook(Box::new(|_| {}));    // panics of the code under test are data, not noise
+    // panics of the code under test are data, not noise: remember where they happened, print nothing
+    std::panic::set_hook(Box::new(|info| {
+        let loc = info.location().map(|l| format!("{}:{}", l.file().rsplit("/src/").next().unwrap_or(l.file()), l.line())).unwrap_or_default();
+        proj::LAST_PANIC.with(|c| *c.borrow_mut() = loc);
+    }));
     let args: Vec<String> = std::env::args().collect();
     let cmd = args.get(1).map(|s| s.as_str()).unwrap_or("");
     let id = args.get(2).map(|s| s.as_str()).unwrap_or("");
